@@ -169,7 +169,7 @@ Definition RemoveReverse (b : bimap) (value : Z) : bimap :=
    does not touch the Bimap. A key of [order] that is not in b.forward cannot
    be produced by the range statement: skipped (excluded by the hypothesis of
    the theorems). *)
-Fixpoint Range_loop {S : Type} (fwd : gomap) (order : list Z) (f : S -> Z -> Z -> S * bool) (s : S) : S :=
+Fixpoint Range_loop {T : Type} (fwd : gomap) (order : list Z) (f : T -> Z -> Z -> T * bool) (s : T) : T :=
   match order with
   | [] => s
   | k :: rest =>
@@ -181,7 +181,7 @@ Fixpoint Range_loop {S : Type} (fwd : gomap) (order : list Z) (f : S -> Z -> Z -
       else Range_loop fwd rest f s
   end.
 
-Definition Range {S : Type} (b : bimap) (order : list Z) (f : S -> Z -> Z -> S * bool) (s : S) : S :=
+Definition Range {T : Type} (b : bimap) (order : list Z) (f : T -> Z -> Z -> T * bool) (s : T) : T :=
   Range_loop (forward b) order f s.
 
 (* Clear(b.forward); Clear(b.reverse) *)
@@ -209,7 +209,7 @@ Inductive op :=
 | OClear (h : nat)
 | OClone (h : nat).          (* appends the clone as a new handle *)
 
-Definition state := list bimap.
+Notation state := (list bimap) (only parsing).
 
 Definition init_state : state := [zero_bimap].
 
@@ -287,7 +287,7 @@ Definition abs (b : bimap) : spec := default ∅ (forward b).
 
 (* what Range hands to its callback when the pairs come in the order [ps]:
    the callback is called on the pairs in turn until it returns false *)
-Fixpoint visit {S : Type} (ps : list (Z * Z)) (f : S -> Z -> Z -> S * bool) (s : S) : S :=
+Fixpoint visit {T : Type} (ps : list (Z * Z)) (f : T -> Z -> Z -> T * bool) (s : T) : T :=
   match ps with
   | [] => s
   | (k, v) :: rest =>
@@ -296,5 +296,5 @@ Fixpoint visit {S : Type} (ps : list (Z * Z)) (f : S -> Z -> Z -> S * bool) (s :
   end.
 
 (* a callback that records its arguments in front of another callback *)
-Definition recording {S : Type} (f : S -> Z -> Z -> S * bool) : list (Z * Z) * S -> Z -> Z -> (list (Z * Z) * S) * bool :=
+Definition recording {T : Type} (f : T -> Z -> Z -> T * bool) : list (Z * Z) * T -> Z -> Z -> (list (Z * Z) * T) * bool :=
   fun '(calls, s) k v => let '(s', c) := f s k v in ((calls ++ [(k, v)], s'), c).
